@@ -68,8 +68,24 @@ def same_relation(A, a, b):
     return A.equal(a.expr, b.expr)
 
 
+class RaisesForValidConfig(AnalysisError):
+    pass
+
+
 def collect(proj, shapes, bct, recon="extrapol2dk"):
     """decoded relations of one rhs pass (gradients, closures, reconstruction, calc_bc, flux balance)"""
+    try:
+        return _collect(proj, shapes, bct, recon)
+    except AnalysisError as e:
+        if "raise statement reached" in str(e) or "raise reached" in str(e):
+            cfg = ", ".join("%s=%s" % (t, bct[t]) for t in ("left", "right", "bottom", "top"))
+            ex = RaisesForValidConfig(str(e))
+            ex.violation = ("BC-COMBO", "modeldisc.fvm2dcart", "the 2D operator raises an exception for the valid boundary combination (%s): %s" % (cfg, e), "raises-" + "-".join(bct[t] for t in ("left", "right", "bottom", "top")))
+            raise ex
+        raise
+
+
+def _collect(proj, shapes, bct, recon="extrapol2dk"):
     D = Disc2D(proj, neq_shapes=shapes, bctypes=bct)
     E = D.eng
     stages = {}
@@ -579,7 +595,7 @@ def const_2d(check):
     """constant data: zero 2D gradients, face states equal the cell value"""
     proj = check.proj
     for recon in ("extrapol2d1", "extrapol2dk"):
-        for bct, bname in ((PER, "periodic"), (OPEN, "non-periodic")):
+        for bct, bname in ((PER, "periodic"), (OPEN, "non-periodic"), (XPER, "x-periodic, y walls"), (YPER, "y-periodic, x walls")):
             D, stages, calls, got, ci = collect(proj, (1,), bct, recon)
             A = D.eng.alg
             alpha = A.sym("alpha")
